@@ -205,7 +205,8 @@ def _initial_frame(m=None):
 def _bounded_quick():
     b1, n1 = native_malloc()
     b2, n2 = native_hashseed((1, 2, 3))
-    return b1 + b2, n1 + n2
+    b3, n3 = native(0, cfgs=(1,), thread_counts=(1, 3))        # screening kernel with different numbers of threads
+    return b1 + b2 + b3, n1 + n2 + n3
 
 
 def units():
@@ -217,11 +218,11 @@ def units():
     us.append(Unit("TDGLSolver.solve[initial frame]", "tdgl.solver.solver:TDGLSolver.solve", _initial_frame, props=["C09", "C11"], timeout=300))
     us.append(Unit("iteration order", "tdgl (numerical core, syntactic)", run_iteration_order, props=["C09"], timeout=300))
     us.append(Unit("validate_terminal_currents[rng]", "tdgl.solver.solver:validate_terminal_currents", run_rng, props=["C09"], timeout=300))
-    us.append(_h.bounded_unit("same bits in fresh processes [bounded]", "tdgl.solve in fresh processes", "C09", _bounded_quick, "recorded_bytes_independent_of_heap_state_and_hash_seed[6 processes]", timeout=900))
+    us.append(_h.bounded_unit("same bits in fresh processes [bounded]", "tdgl.solve in fresh processes", "C09", _bounded_quick, "recorded_bytes_independent_of_heap_state_hash_seed_and_thread_count[8 processes]", timeout=900))
     return us
 
 
-def native(seed=0):
+def native(seed=0, cfgs=(0, 1, 2), thread_counts=(1, 4, 16)):
     """BOUNDED: the same simulation in fresh processes with NUMBA_NUM_THREADS in {1, 4, 16}; sha256 over mesh and every dataset
     except timestamps must agree."""
     import os
@@ -259,9 +260,9 @@ print("SHA", h.hexdigest())
     bad = []
     n = 0
     repo = os.environ.get("PYVC_REPO", "/repo")
-    for cfg in range(3):
+    for cfg in cfgs:
         digests = {}
-        for threads in (1, 4, 16):
+        for threads in thread_counts:
             with tempfile.TemporaryDirectory() as td:
                 env = dict(os.environ, NUMBA_NUM_THREADS=str(threads), PYVC_REPO_PATH=repo)
                 p = subprocess.run([sys.executable, "-c", prog, os.path.join(td, f"o{threads}.h5"), str(cfg)], capture_output=True, text=True, env=env, timeout=900)
@@ -360,6 +361,15 @@ def replay_scope(unit, obl):
 
 
 def replay(unit, obl):
+    if "bounded" in unit or unit in ("get_A_induced_numba", "_biot_savart_2d_z", "_biot_savart_2d_vector") or unit.endswith("distance_2d") or unit.endswith("distance_3d"):
+        # parallel kernels: the same screening run with different numbers of threads (fresh processes) must give the same bytes
+        bad, n = native(0, cfgs=(1,), thread_counts=(1, 2, 3))
+        if bad:
+            return dict(confirmed=True, failing_input=bad[0], evaluations=n)
+        if "bounded" in unit:
+            bad, n = _bounded_quick()
+            return dict(confirmed=bool(bad), failing_input=(bad or [None])[0], evaluations=n)
+        return dict(confirmed=False, evaluations=n, note="race-freedom / overwrite obligations are about all schedules; the thread-count replay found no difference")
     if unit.startswith("TDGLSolver.solve"):
         # two fresh processes with different malloc fill patterns: every recorded dataset (frame 0 included) must have the same bytes
         bad, n = native_malloc()
